@@ -284,6 +284,10 @@ def run(ctx):
             return False
         return not any(isinstance(n_, ast.Call) and isinstance(n_.func, ast.Name) and n_.func.id == "open" for n_ in ast.walk(fn_.node))
     gq = sorted(q_ for q_ in (reach[0] & reach[1]) if plain_two_arg(q_))
+    if not gq:
+        # only one of the two readers still goes through a helper: the helper is found from that one, and the other reader
+        # is judged by what it does with a file (below)
+        gq = sorted(q_ for q_ in (reach[0] | reach[1]) if plain_two_arg(q_))
     if len(gq) != 1:
         raise AnalysisError(f"file-type helper of Sequence.load/loadall not identified (candidates {gq})")
     g = I.global_name(*gq[0].split(".", 1))
